@@ -9,18 +9,18 @@ def stored_certificate(fe, pname):
     """blocks at whose entry the cell has certainly been written (greatest fixpoint of the forward must-analysis);
     mirrors M2V.v: predecessors = blocks whose LAST instruction mentions the block's label"""
     from vyper.venom.basicblock import IRLabel, IRVariable
-    blocks = fe.blocks
-    n = len(blocks)
+    rows = fe.rows
+    n = len(rows)
 
-    def is_cstore(i):
-        ops = i.operands
-        return (i.opcode == "mstore" and len(ops) == 2 and isinstance(ops[1], IRVariable) and ops[1].value == pname
-                and not (isinstance(ops[0], IRVariable) and ops[0].value == pname) and not i.get_outputs())
-    has_store = [any(is_cstore(i) for i in bb.instructions) for bb in blocks]
+    def is_cstore(r):
+        op, ops, outs = r
+        return (op == "mstore" and len(ops) == 2 and isinstance(ops[1], IRVariable) and ops[1].value == pname
+                and not (isinstance(ops[0], IRVariable) and ops[0].value == pname) and not outs)
+    has_store = [any(is_cstore(r) for r in rs) for _, rs in rows]
     preds = [[] for _ in range(n)]
-    for q, bb in enumerate(blocks):
-        if bb.instructions:
-            for o in bb.instructions[-1].operands:
+    for q, (_, rs) in enumerate(rows):
+        if rs:
+            for o in rs[-1][1]:
                 if isinstance(o, IRLabel) and o.value in fe.lab:
                     preds[fe.lab[o.value]].append(q)
     sin = [True] * n
@@ -47,56 +47,43 @@ def wrap(obs):
     from vyper.venom.passes.mem2var import Mem2Var
     from .c14i_part import FnExport
     orig = Mem2Var._process_alloca_var
-    obs.m2v_seen = obs.m2v_cand = obs.m2v_not_candidates = 0
+    obs.m2v_seen = obs.m2v_cand = obs.m2v_unchanged = 0
     obs.m2v_stride = getattr(obs, "m2v_stride", 1)
 
     def proc(self, dfg, alloca_inst, var):
-        rec = None
+        fe = None
         try:
             fn = self.function
-            # (untrusted, only saves time) allocas the pass cannot promote are not exported: dynamic size or a use by another opcode
-            uses = dfg.get_uses(alloca_inst.output)
-            cand = isinstance(alloca_inst.operands[0], IRLiteral) and all(u.opcode in ("mstore", "mload", "return") for u in uses)
             obs.m2v_seen += 1
-            skip = False
-            if not cand:
-                obs.m2v_not_candidates += 1
-                skip = True
-            else:
-                obs.m2v_cand += 1
-                if obs.origin and obs.origin.startswith("corpus:") and obs.m2v_stride > 1 and obs.m2v_cand % obs.m2v_stride != 0:
-                    skip = True
-            if skip:
-                raise _Skip()
             var_ids, foreign = {}, {}
             fids = {f.name.value: i for i, f in enumerate(fn.ctx.functions.values())} if getattr(fn, "ctx", None) is not None else {}
-            fe = FnExport(fn, var_ids, fids, foreign)
-            size = alloca_inst.operands[0]
-            if fe.ninsts() <= obs.max_insts:
-                rec = {"fn": fn, "name": fn.name.value, "p_name": alloca_inst.output.value, "F": fe.term(), "F_text": fe.text(), "p": fe.v(alloca_inst.output),
-                       "size": size.value if isinstance(size, IRLiteral) else None, "count": self.var_name_count, "var": var_ids, "fids": fids,
-                       "foreign": foreign, "entry_first": fe.entry_first, "S": stored_certificate(fe, alloca_inst.output.value),
-                       "ninsts": fe.ninsts(), "origin": obs.origin}
-            else:
-                obs.skipped_big += 1
-        except _Skip:
-            rec = None
+            fe = FnExport(fn, var_ids, fids, foreign)       # cheap snapshot; rendered only if the pass changes the function
+            count = self.var_name_count
         except Exception as e:
             obs.errors.append(f"mem2var export: {type(e).__name__}: {e}")
         r = orig(self, dfg, alloca_inst, var)
-        if rec is not None:
+        if fe is not None:
             try:
-                fe2 = FnExport(rec["fn"], rec["var"], rec["fids"], rec["foreign"])
-                rec["F2_text"] = fe2.text()
-                rec["promoted"] = rec["F2_text"] != rec["F_text"]
-                if rec["promoted"]:
-                    rec["F2"] = fe2.term()
-                    xname = "%alloca_" + rec["p_name"].removeprefix("%") + "_" + str(rec["count"])
-                    if xname not in rec["var"]:
-                        rec["var"][xname] = len(rec["var"])
-                    rec["x"] = rec["var"][xname]
-                    rec["x_name"] = xname
-                del rec["fn"], rec["var"]
+                fe2 = FnExport(fe.fn, var_ids, fids, foreign)
+                if fe2.rows == fe.rows:
+                    obs.m2v_unchanged += 1
+                    return r
+                obs.m2v_cand += 1
+                if obs.origin and obs.origin.startswith("corpus:") and obs.m2v_stride > 1 and obs.m2v_cand % obs.m2v_stride != 0:
+                    return r
+                if fe.ninsts() > obs.max_insts:
+                    obs.skipped_big += 1
+                    return r
+                size = alloca_inst.operands[0]
+                pname = alloca_inst.output.value
+                rec = {"name": fe.name, "p_name": pname, "F": fe.term(), "F_text": fe.text(), "p": fe.v(alloca_inst.output),
+                       "size": size.value if isinstance(size, IRLiteral) else None, "entry_first": fe.entry_first,
+                       "S": stored_certificate(fe, pname), "ninsts": fe.ninsts(), "origin": obs.origin, "promoted": True,
+                       "F2": fe2.term(), "F2_text": fe2.text()}
+                xname = "%alloca_" + pname.removeprefix("%") + "_" + str(count)
+                if xname not in var_ids:
+                    var_ids[xname] = len(var_ids)
+                rec["x"], rec["x_name"] = var_ids[xname], xname
                 obs.m2v.append(rec)
             except Exception as e:
                 obs.errors.append(f"mem2var export (after): {type(e).__name__}: {e}")
@@ -165,7 +152,7 @@ def report(ctx, obs, quick, rnd):
     from .c14i_part import evaluate
     from .common import COQ
     recs = obs.m2v
-    stats = {"allocas_seen": obs.m2v_seen, "not_candidates": obs.m2v_not_candidates, "candidates": obs.m2v_cand, "sampling_stride_corpus": obs.m2v_stride,
+    stats = {"allocas_seen": obs.m2v_seen, "function_unchanged": obs.m2v_unchanged, "function_changed": obs.m2v_cand, "sampling_stride_corpus": obs.m2v_stride,
              "exported": len(recs), "promoted": sum(1 for r in recs if r["promoted"]), "accepted": 0, "rejected": 0, "unsupported": 0,
              "not_promoted": sum(1 for r in recs if not r["promoted"]), "unsupported_reasons": {},
              "family_promotions": 0, "corpus_promotions": 0}
